@@ -133,7 +133,7 @@ impl ChainStorage for FailingChain {
 }
 
 #[derive(Clone, Debug)]
-pub struct Cfg { pub gen_seed: u64, pub gen_tier: String, pub preset: u8, pub seed: u64, pub sched: u64, pub num_chains: usize, pub num_cores: usize, pub num_tune: u64, pub num_draws: u64, pub dim: usize, pub script: Vec<(u8, u64)>, pub end_abort: bool, pub poll_finish: bool, pub zero_poll: bool, pub failure: Failure }
+pub struct Cfg { pub gen_seed: u64, pub gen_tier: String, pub preset: u8, pub seed: u64, pub sched: u64, pub num_chains: usize, pub num_cores: usize, pub num_tune: u64, pub num_draws: u64, pub dim: usize, pub script: Vec<(u8, u64)>, pub end_abort: bool, pub poll_finish: bool, pub zero_poll: bool, pub flush_after_finish: bool, pub failure: Failure }
 
 impl Cfg {
     pub fn to_json(&self) -> serde_json::Value { json!({"gen_seed": self.gen_seed.to_string(), "gen_tier": self.gen_tier, "preset": self.preset, "seed": self.seed, "sched": self.sched, "num_chains": self.num_chains, "num_cores": self.num_cores, "num_tune": self.num_tune, "num_draws": self.num_draws, "dim": self.dim, "script": self.script, "end_abort": self.end_abort, "poll_finish": self.poll_finish, "zero_poll": self.zero_poll, "failure": format!("{:?}", self.failure)}) }
@@ -154,6 +154,8 @@ pub struct RunOut { pub fault_evals: u64, pub result: String, pub traces: Option
 
 static RUN_LOCK: std::sync::Mutex<()> = std::sync::Mutex::new(());
 /// number of injected storage write failures of the last run (Failure::AsyncStoreWrite)
+/// run once right after `Sampler::flush()` returned in runs with `flush_after_finish` (all chains finished, nothing finalised yet)
+pub static AFTER_FLUSH: std::sync::Mutex<Option<Box<dyn FnOnce() + Send>>> = std::sync::Mutex::new(None);
 static STORE_FAILS: std::sync::Mutex<Option<Arc<AtomicU64>>> = std::sync::Mutex::new(None);
 
 /// drive one parallel run with the scripted commands (op, delay µs): 0 pause, 1 resume, 2 progress, 3 flush, 4 inspect
@@ -215,6 +217,10 @@ where S: Settings + 'static, SC: StorageConfig + 'static, <SC::Storage as TraceS
                     std::thread::sleep(Duration::from_millis(1));
                 }
             }
+            if cfg2.flush_after_finish {
+                if let Err(e) = sampler.flush() { out.api_errors.push(format!("flush after completion: {e:#}")); }
+                if let Some(cb) = AFTER_FLUSH.lock().unwrap().take() { cb(); }
+            }
             if cfg2.end_abort {
                 let pr = sampler.progress().ok();
                 if let Some(p) = &pr { out.snapshots.push(snap(p)); }
@@ -262,7 +268,7 @@ pub fn gen_cfg(seed: u64, case: u64, tier: &str, mode: u8) -> Cfg {
     // evaluation index (initialisation, step-size search, every leapfrog of the first draws, the step-size re-initialisation)
     if mode == 3 && case >= 1_000_000 {
         return Cfg { gen_seed: seed, gen_tier: tier.to_string(), preset: 0, seed: (seed.wrapping_mul(2654435761) | 1), sched: 1, num_chains: 1, num_cores: 1,
-            num_tune: 12, num_draws: 3, dim: 2, script: vec![], end_abort: false, poll_finish: false, zero_poll: false, failure: Failure::Logp { chain: 0, eval: case - 1_000_000 } };
+            num_tune: 12, num_draws: 3, dim: 2, script: vec![], end_abort: false, poll_finish: false, zero_poll: false, flush_after_finish: false, failure: Failure::Logp { chain: 0, eval: case - 1_000_000 } };
     }
     let mut r = Sm::new(seed, "CTL", case * 10 + mode as u64);
     let num_chains = 1 + r.below(if tier == "thorough" { 8 } else { 5 }) as usize;
@@ -315,7 +321,7 @@ pub fn gen_cfg(seed: u64, case: u64, tier: &str, mode: u8) -> Cfg {
     // has finished (commands after completion), then waited for or aborted
     let poll_finish = mode == 1 && case % 4 == 2;
     if poll_finish && num_draws < 10 { num_draws = 10; }
-    Cfg { gen_seed: seed, gen_tier: tier.to_string(), preset: match mode { 3 => 0, _ if big_dim.is_some() => 0, _ => (case % 3) as u8 }, seed: r.next() | 1, sched: r.next() | 1, num_chains, num_cores, num_tune, num_draws, dim: { let d = 2 + r.below(3) as usize; big_dim.unwrap_or(d) }, script, end_abort: match mode { 1 => case % 3 == 0 && case != 3, 3 => case % 2 == 0, _ => false }, poll_finish, zero_poll: mode == 1 && case % 4 == 1, failure }
+    Cfg { gen_seed: seed, gen_tier: tier.to_string(), preset: match mode { 3 => 0, _ if big_dim.is_some() => 0, _ => (case % 3) as u8 }, seed: r.next() | 1, sched: r.next() | 1, num_chains, num_cores, num_tune, num_draws, dim: { let d = 2 + r.below(3) as usize; big_dim.unwrap_or(d) }, script, end_abort: match mode { 1 => case % 3 == 0 && case != 3, 3 => case % 2 == 0, _ => false }, poll_finish, zero_poll: mode == 1 && case % 4 == 1, flush_after_finish: false, failure }
 }
 
 fn emit_chain_records(cases: &mut Cases, case: u64, cfg: &Cfg, events: &[(u64, u8, u64)]) {
